@@ -620,11 +620,12 @@ struct LcSim : Harness {
     kn.set("alloc", al); kn.set("placement", (int) (r.chance(1, 3) ? P_PACKED_FAR : r.below(4)));
     { static const long long G = 1ll << 30; static const long long gaps[] = {G, 2 * G - 8192, 2 * G + 8192, 3 * G, 4 * G - 8192, 4 * G, 4 * G + 8192, 6 * G}; kn.set("placement_gap", gaps[r.below(8)]); }
     prog::GenOpts go; go.nmods = (int) r.range(1, 3); go.nfuncs = (int) r.range(1, 3); go.body = (int) r.range(3, 7);
-    bool big = r.chance(1, 8);   // large bodies: code that spans pages, many switch tables (absolute-address relocations)
+    bool big = r.chance(1, 6);   // large bodies: code that spans pages, many switch tables (absolute-address relocations)
     if (big) { go.body = (int) r.range(20, 70); go.nfuncs = (int) r.range(2, 5); }
     // swarm: feature subset per run
     go.lref = r.chance(1, 2); go.jt = r.chance(1, 2); go.sw = r.chance(2, 3); go.icall = r.chance(1, 2); go.ext = r.chance(2, 3); go.mem = r.chance(1, 2); go.loops = r.chance(2, 3); go.doubles = r.chance(1, 3); go.recursion = r.chance(1, 2); go.extn = r.chance(1, 4);
     if (big) { go.sw = true; go.sw_weight = 30; go.recursion = false; }
+    go.blocked = r.coin();
     prog::Generator g(r, go); Json prog = g.program(); prog::protect_fuel(prog);
     for (auto &mo : prog["mods"].a) mo.set("fwd_first", (int) r.coin());
     Json ops = Json::array(); size_t nm = prog.at("mods").size();
